@@ -31,11 +31,11 @@ def q(xs):
 
 def mc_cfg(themes, extra, less, textlen, export, otd, omit, parser_defects, fix=True, deep=(), deeper=()):
     inv = "INVARIANT ThmConforming\n" + ("INVARIANT ThmFixpoint\n" if fix else "") + "INVARIANT ThmOmit\nINVARIANT ThmExport\n"
+    tf = lambda b: "TRUE" if b else "FALSE"
     return ("INIT Init\nNEXT Next\nCHECK_DEADLOCK FALSE\n" + inv +
-            "CONSTANT Themes = %s\nCONSTANT Extra = %d\nCONSTANT Less = %d\nCONSTANT Deep = " + q(deep) + "\nCONSTANT Deeper = " + q(deeper) +
-            "\nCONSTANT TextLen = %d\nCONSTANT Export = %s\n"
-            "CONSTANT OtDefects = %s\nCONSTANT CheckOmit = %s\nCONSTANT KnownDefects = %s\n"
-            % (q(themes), extra, less, textlen, "TRUE" if export else "FALSE", q(otd), "TRUE" if omit else "FALSE", q(parser_defects)))
+            "CONSTANT Themes = %s\nCONSTANT Extra = %d\nCONSTANT Less = %d\nCONSTANT Deep = %s\nCONSTANT Deeper = %s\n"
+            "CONSTANT TextLen = %d\nCONSTANT Export = %s\nCONSTANT OtDefects = %s\nCONSTANT CheckOmit = %s\nCONSTANT KnownDefects = %s\n"
+            % (q(themes), extra, less, q(deep), q(deeper), textlen, tf(export), q(otd), tf(omit), q(parser_defects)))
 
 
 # ------------------------------------------------------------------------------------------------
